@@ -80,6 +80,33 @@ def mval(x):
     raise Unmodelled(f"configuration value of type {type(x).__name__}")
 
 
+def pk(v):
+    """value -> compact wire format (strings and byte strings as numbers, see Model/AreaModel.v)"""
+    k, x = v
+    if k == "s":
+        n = 0
+        for ch in x:
+            n = (n << 21) | ord(ch)
+        return VL([VI(-1), VI(len(x)), VI(n)])
+    if k == "b":
+        return VL([VI(-2), VI(len(x)), VI(int.from_bytes(x, "big"))])
+    if k == "l":
+        return VL([pk(y) for y in x])
+    return v
+
+
+def unpk(v):
+    k, x = v
+    if k == "l":
+        if len(x) == 3 and x[0] == ("i", -1) and x[1][0] == "i" and x[2][0] == "i":
+            n, ln = x[2][1], x[1][1]
+            return ("s", "".join(chr((n >> (21 * (ln - 1 - i))) & 0x1FFFFF) for i in range(ln)))
+        if len(x) == 3 and x[0] == ("i", -2) and x[1][0] == "i" and x[2][0] == "i":
+            return ("b", x[2][1].to_bytes(x[1][1], "big"))
+        return ("l", [unpk(y) for y in x])
+    return v
+
+
 def settings_to_model(lay, settings):
     """settings dictionary -> list of model entries [ref, flavour, body, by_name]"""
     out = []
@@ -114,8 +141,68 @@ def reg_range(r):
     return (r["off"], r["off"] + r["w"] // 8)
 
 
+def get_reg(lay, path):
+    return lay["regs"][path[0]] if len(path) == 1 else lay["regs"][path[0]]["subs"][path[1]]
+
+
+def all_names(lay):
+    out = []
+    for r in lay["regs"]:
+        out.append(r["name"])
+        out += [s["name"] for s in r["subs"]]
+    return out
+
+
+def yaml_fragile(name):
+    """a string that YAML 1.1 (PyYAML, what load_configuration uses) does not read back as the same string when it is
+    written as a plain scalar (Yes/No/On/Off, 00, 1:30 ...)"""
+    import yaml
+    try:
+        return yaml.safe_load(name) != name
+    except Exception:  # noqa
+        return True
+
+
+def fragile_enums(lay):
+    out = []
+    for r in lay["regs"]:
+        for x in [r] + r["subs"]:
+            for f in x["fields"]:
+                out += [n for (n, _) in f["enums"] if yaml_fragile(n)]
+    return out
+
+
+def ambiguous_mask(r):
+    """bits of the bit-fields of r that have two enums of the same name with different values"""
+    m = 0
+    for f in r["fields"]:
+        seen = {}
+        for (n, v) in f["enums"]:
+            seen.setdefault(n, set()).add(v)
+        if any(len(s) > 1 for s in seen.values()):
+            m |= ((1 << f["w"]) - 1) << f["off"]
+    return m
+
+
+def dupfield_mask(r):
+    names = [f["name"] for f in r["fields"]]
+    m = 0
+    for f in r["fields"]:
+        if names.count(f["name"]) > 1:
+            m |= ((1 << f["w"]) - 1) << f["off"]
+    return m
+
+
+def fragile_mask(r):
+    m = 0
+    for f in r["fields"]:
+        if any(yaml_fragile(n) for (n, _) in f["enums"]):
+            m |= ((1 << f["w"]) - 1) << f["off"]
+    return m
+
+
 def classify_reg(lay, path, kind):
-    """input class of a register for signatures"""
+    """structural input class of a register, for signatures"""
     i = path[0]
     top = lay["regs"][i]
     cls = []
@@ -123,6 +210,8 @@ def classify_reg(lay, path, kind):
         cls.append("alt-widths-reversed" if top["rev"] else "alt-widths")
     if top["subs"] and len(top["subs"]) * top["subs"][0]["w"] != top["w"]:
         cls.append("group-wider-than-its-sub-registers")
+    if all_names(lay).count(get_reg(lay, path)["name"]) > 1:
+        cls.append("duplicate-register-name")
     if kind != "fuses":
         a, b = reg_range(top)
         for k, o in enumerate(lay["regs"]):
@@ -132,6 +221,34 @@ def classify_reg(lay, path, kind):
                     cls.append("overlapped-register")
                     break
     return ",".join(cls) if cls else "plain"
+
+
+def explain_diff(lay, path, a, b, kind, text=False):
+    """input class of a register whose value changed from a to b in a configuration round trip"""
+    r = get_reg(lay, path)
+    diff = a ^ b
+    if r["fields"] and diff:
+        if diff & ~dupfield_mask(r) == 0:
+            return "duplicate-bit-field-names"
+        if diff & ~ambiguous_mask(r) == 0:
+            return "ambiguous-enum-names"
+        if text and diff & ~fragile_mask(r) == 0:
+            return "enum-name-not-a-yaml-string"
+    return classify_reg(lay, path, kind)
+
+
+def snap_diff_classes(lay, kind, s1, s2, text=False):
+    cls = set()
+    for i, (x, y) in enumerate(zip(s1, s2)):
+        if x != y:
+            r = lay["regs"][i]
+            if r["subs"]:
+                sub_cls = {explain_diff(lay, (i, j), p, q, kind, text) for j, (p, q) in enumerate(zip(x[1:], y[1:])) if p != q}
+                top_cls = explain_diff(lay, (i,), x[0], y[0], kind, text)
+                cls |= ({top_cls} if top_cls != "plain" or not sub_cls else sub_cls)
+            else:
+                cls.add(explain_diff(lay, (i,), x[0], y[0], kind, text))
+    return "+".join(sorted(cls)) if cls else "no-register-differs"
 
 
 # ------------------------------------------------------------------ value generation
@@ -330,6 +447,10 @@ def doc_size(d, lay):
     return None
 
 
+def layout_end(lay):
+    return max([reg_range(r)[1] for r in lay["regs"]] + [0])
+
+
 def make_cases(tier, rng, R):
     """R: result of regen (layouts, instances, amap, model_layouts)"""
     layouts, inst = R["layouts"], R["instances"]
@@ -341,13 +462,14 @@ def make_cases(tier, rng, R):
     for li, rows in sorted(by_layout.items()):
         d = layouts[li]
         kind = d["kind"]
-        # template scenario: every instance in thorough, the first and the last instance of every layout in quick
-        trows = rows if thorough else ([rows[0]] if len(rows) == 1 else [rows[0], rows[-1]])
-        for row in trows:
+        # template scenario: every instance in thorough, the first instance of every layout (and the last, for the text
+        # round trip) in quick
+        trows = rows if thorough else [rows[0]]
+        for n, row in enumerate(trows):
             cases.append({"scenario": "template", "kind": kind, "family": row[1], "rev": row[2], "sub": row[3], "layout": li,
-                          "text": 1})
+                          "text": int(thorough and n == 0)})
         if kind == "tz":
-            n = 12 if thorough else 3
+            n = 12 if thorough else 2
             for q in range(n):
                 row = rows[q % len(rows)]
                 customs = {}
@@ -359,13 +481,19 @@ def make_cases(tier, rng, R):
                               "settings": customs})
             continue
         lay, _ = R["model_layouts"][li]
-        nvals = (14 if thorough else 3)
+        slow = kind in ("xmcd", "fcb")      # their get_config already goes through the YAML text, their loaders validate
+        nvals = (16 if thorough else (2 if slow else 3))
         for q in range(nvals):
             row = rows[(q * 7) % len(rows)]
             density = [1.0, 0.5, 0.15][q % 3]
             settings, touched = gen_settings(rng, lay, d, density)
+            if thorough:
+                validate, text = int(q % 4 == 0), int(q % 4 == 1 and not slow)
+            else:
+                validate = int(q == 0 and kind != "xmcd" and li % 3 == 0)
+                text = int(q == 1 and not slow and (kind != "fuses" or li % 3 == 1))
             c = {"scenario": "values", "kind": kind, "family": row[1], "rev": row[2], "sub": row[3], "layout": li,
-                 "settings": settings, "touched": touched, "validate": int(q == 0), "text": int(q == 1)}
+                 "settings": settings, "touched": touched, "validate": validate, "text": text}
             if kind in PFR_KINDS:
                 c["seal"] = 1
                 if d.get("rotkh") is not None:
@@ -380,14 +508,15 @@ def make_cases(tier, rng, R):
                         rk[:nb - 32] = bytes(nb - 32)   # a long hash that fits the smaller width
                     c["rotkh"] = bytes(rk).hex()
             cases.append(c)
-        # the area's parser on arbitrary binaries
+        # the area's parser on arbitrary binaries (the fuse map has no binary form)
+        if kind == "fuses":
+            continue
         nrand = (4 if thorough else 1)
         for q in range(nrand):
             row = rows[(q * 5 + 1) % len(rows)]
-            size = doc_size(d, lay) or max([reg_range(r)[1] for r in lay["regs"]] + [0])
-            blob = bytearray(rng.getrandbits(8) for _ in range(size))
-            if q % 2 == 0:
-                blob = bytearray(b ^ 0 if rng.random() < 0.5 else f for b, f in zip(blob, bytes([d.get("fill", 0)]) * size))
+            size = max(doc_size(d, lay) or 0, layout_end(lay))
+            fill = d.get("fill", 0)
+            blob = bytearray((rng.getrandbits(8) if rng.random() < (0.5 if q % 2 == 0 else 1.0) else fill) for _ in range(size))
             fix_structural(d, lay, blob, rng)
             cases.append({"scenario": "values", "kind": kind, "family": row[1], "rev": row[2], "sub": row[3], "layout": li,
                           "settings": ({lay["regs"][0]["name"]: {}} if kind == "xmcd" else {}), "touched": {},
@@ -427,6 +556,13 @@ def fix_structural(d, lay, blob, rng):
         h = lay["regs"][0]
         a, b = reg_range(h)
         blob[a:b] = h["value"].to_bytes(b - a, "little")
+        names = [r["name"] for r in lay["regs"]]
+        size = len(blob)
+        if "configOption0" in names and "configOption1" in names and resolve_field(lay["regs"][names.index("configOption0")], "optionSize") is not None:
+            if get_field(blob, lay, names.index("configOption0"), "optionSize") == 0:
+                size = reg_range(lay["regs"][names.index("configOption1")])[0]
+                del blob[size:]
+        put_field(blob, lay, 0, "configurationBlockSize", size)
     if k in PFR_KINDS and rng.random() < 0.7:
         for c in d.get("computed", []):
             r = lay["regs"][c["reg"][0]]
@@ -447,14 +583,14 @@ def model_expr(case, R):
             if k_ not in names:
                 raise Unmodelled("unknown preset name")
             cu.append(VL([VI(names.index(k_)), mval(v_)]))
-        return f"run_case 3 [VInt {idx}; {vlib.coq_lit(VL(cu))}]"
+        return f"run_tz tz_{idx} [{vlib.coq_lit(pk(VL(cu)))}]"
     lay, _ = R["model_layouts"][li]
     if case.get("parse_random") is not None:
-        return f"run_case 2 [VInt {idx}; {vlib.coq_lit(VB(bytes.fromhex(case['parse_random'])))}]"
+        return f"run_area area_{idx} 2 [{vlib.coq_lit(pk(VB(bytes.fromhex(case['parse_random']))))}]"
     entries = settings_to_model(lay, case["model_settings"])
     rot = bytes.fromhex(case["rotkh"]) if case.get("rotkh") else b""
-    return (f"run_case 1 [VInt {idx}; {vlib.coq_lit(VL(entries))}; VInt {int(bool(case.get('seal')))}; "
-            f"{vlib.coq_lit(VB(rot))}]")
+    return (f"run_area area_{idx} 1 [{vlib.coq_lit(pk(VL(entries)))}; VInt {int(bool(case.get('seal')))}; "
+            f"{vlib.coq_lit(pk(VB(rot)))}]")
 
 
 def canon_cfg_value(v, hexreg=False):
@@ -485,7 +621,7 @@ def canon_cfg(lay, items):
 
 
 def model_cfg_items(v):
-    """cout_value list printed by the model -> the items format"""
+    """the configuration printed by the model -> the items format"""
     out = []
     for e in v[1]:
         name, fl, body = e[1][0][1], e[1][1][1], e[1][2]
@@ -524,16 +660,17 @@ def msnap(v):
     return [[x[1] for x in row[1]] for row in v[1]]
 
 
-# ------------------------------------------------------------------ the check
+# ------------------------------------------------------------------ implementation side
 def run_impl_parallel(cases, timeout=3000):
     """cases -> results, over several implementation processes"""
     if not cases:
         return []
     n = min(WORKERS, max(1, len(cases) // 4))
+    # longest first, round robin: keeps the expensive instances spread
+    order = sorted(range(len(cases)), key=lambda i: -(3 if cases[i]["scenario"] == "template" else 1 + 2 * bool(cases[i].get("validate")) + 2 * bool(cases[i].get("text"))))
     chunks = [[] for _ in range(n)]
-    # round robin keeps expensive instances spread
-    for i, c in enumerate(cases):
-        chunks[i % n].append((i, c))
+    for pos, i in enumerate(order):
+        chunks[pos % n].append((i, cases[i]))
 
     def work(chunk):
         payload = {"op": "run", "cases": [{k: v for k, v in c.items() if k not in ("touched", "layout", "model_settings")} for (_, c) in chunk]}
@@ -547,8 +684,68 @@ def run_impl_parallel(cases, timeout=3000):
     return out
 
 
-def sig_kind(case):
-    return case["kind"]
+def diff_bytes(a, other):
+    if "err" in other:
+        return f"error {other}"
+    b = bytes.fromhex(other["ok"])
+    if len(a) != len(b):
+        return f"lengths {len(a)} / {len(b)}"
+    for i, (x, y) in enumerate(zip(a, b)):
+        if x != y:
+            return f"first difference at {i:#x}: {x:#04x} / {y:#04x}"
+    return "equal"
+
+
+def check_fuse_script(lay, case, res):
+    """every fuse named in the configuration is programmed with its raw value"""
+    text = res["script"]["ok"]
+    words = {}
+    for m in re.finditer(r"(?:efuse-program-once\s+(\d+)\s+0x([0-9A-Fa-f]+)|write-fuse --index (\d+) --data 0x([0-9A-Fa-f]+))", text):
+        idx = int(m.group(1) or m.group(3))
+        words[idx] = int(m.group(2) or m.group(4), 16)
+    sn = res["snap"]["ok"]
+    settings = case.get("settings") if case["scenario"] == "values" else None
+    if settings is None:
+        return None
+    for key in settings:
+        path, r = resolve_reg(lay, key)
+        if path is None:
+            continue
+        targets = [(path, r)] if not r.get("subs") else [((path[0], j), s) for j, s in enumerate(r["subs"])]
+        for p, t in targets:
+            if t.get("otp") is None:
+                continue
+            want = sn[p[0]][0] if len(p) == 1 else sn[p[0]][1 + p[1]]
+            if words.get(t["otp"]) != want:
+                return f"fuse {t['name']} (OTP index {t['otp']}) holds {want:#x} but the script programs {words.get(t['otp'])}"
+    return None
+
+
+def layout_class(d, lay, what):
+    """input class of a whole layout for the given kind of failure (specific signatures for known findings)"""
+    k = d["kind"]
+    if what == "tz-yaml":
+        return "preset-name-longer-than-the-yaml-line" if max(len(n) for (n, _) in d["presets"]) > 70 else "plain"
+    if what == "schema":
+        return "enum-name-not-a-yaml-string" if fragile_enums(lay) else "plain"
+    if what == "memcfg-count":
+        r0 = [r for r in lay["regs"] if not r["hidden"]][:1]
+        if d.get("rule") == "OptionSize" and r0 and resolve_field(r0[0], "OptionSize") is None:
+            return "rule-OptionSize-without-OptionSize-bit-field"
+        return f"rule-{d.get('rule')}"
+    if what == "own-config":
+        names = all_names(lay)
+        return "duplicate-register-names" if len(set(names)) != len(names) else "plain"
+    if what == "size":
+        ds = doc_size(d, lay)
+        return "registers-beyond-documented-size" if ds is not None and layout_end(lay) > ds else "plain"
+    if what == "tag":
+        if d.get("tag") is not None:
+            r = lay["regs"][d["tag_reg"]]
+            if r["value"].to_bytes(r["w"] // 8, "big" if lay["big"] else "little") != bytes.fromhex(d["tag"]):
+                return "tag-register-resets-to-another-value"
+        return "plain"
+    return "plain"
 
 
 def apply_oracles(rep, case, res, R):
@@ -568,13 +765,20 @@ def apply_oracles(rep, case, res, R):
         fail(f"runner:{kind}:crash", f"the area could not be driven at all: {res['runner']}")
         return 1
     scen = case["scenario"]
+    lay = None if kind == "tz" else R["model_layouts"][case["layout"]][0]
     if scen == "template":
         for stage, text in (("template", "template generation failed"), ("yaml", "the template is not a YAML mapping"),
                             ("schema", "the template does not satisfy the area's own validation schema")):
             nchecks += 1
             if stage in res and "err" in res[stage]:
-                fail(f"template:{kind}:{stage}", f"{text}: {res[stage]}")
-                return nchecks
+                cls = "plain"
+                if kind == "tz" and stage == "yaml":
+                    cls = layout_class(d, lay, "tz-yaml")
+                elif stage == "schema" and kind != "tz":
+                    cls = layout_class(d, lay, "schema")
+                fail(f"template:{kind}:{stage}:{cls}", f"{text}: {res[stage]}")
+                if stage != "schema":
+                    return nchecks
     if "load" in res and "err" in res["load"]:
         nchecks += 1
         if scen == "template":
@@ -596,7 +800,6 @@ def apply_oracles(rep, case, res, R):
         if len(b) != d["size"]:
             fail(f"size:{kind}", f"exported {len(b)} bytes, documented {d['size']}")
         # every word is the configured or the preset value
-        names = [n for (n, _) in d["presets"]]
         src = case.get("settings") if scen == "values" else (res.get("template_cfg", {}) or {}).get("trustZonePreset", {})
         for i, (n, dflt) in enumerate(d["presets"]):
             want = py_value_to_int(src.get(n, dflt)) if isinstance(src, dict) else None
@@ -611,14 +814,13 @@ def apply_oracles(rep, case, res, R):
         if res.get("export3", {}).get("ok") != e1["ok"]:
             fail(f"roundtrip:{kind}:config", "the customisations read back from the binary export differently")
         return nchecks
-    lay, _ = R["model_layouts"][case["layout"]]
     e1 = res.get("export", {})
     nchecks += 1
     if "err" in e1:
         fail(f"export:{kind}:failed", f"export failed: {e1}")
         return nchecks
     b1 = bytes.fromhex(e1["ok"])
-    # O1 documented size
+    # documented size
     nchecks += 1
     ds = doc_size(d, lay)
     if kind == "xmcd":
@@ -626,15 +828,16 @@ def apply_oracles(rep, case, res, R):
     if kind == "memcfg":
         ds = 4 * len(lay["regs"])
     if ds is not None and len(b1) != ds:
-        fail(f"size:{kind}:" + ("registers-beyond-documented-size" if len(b1) > ds else "short"),
-             f"exported {len(b1)} bytes, documented size {ds}")
-    # O2 the area's own parser accepts the export and re-exports it identically
-    nchecks += 1
-    if "parse" in res and "err" in res["parse"]:
-        fail(f"parse:{kind}:rejects-own-export", f"the area's parser rejects the exported binary: {res['parse']}")
-    elif "export2" in res:
-        if res["export2"].get("ok") != e1["ok"]:
-            fail(f"roundtrip:{kind}:parse-export", "parse(export).export() differs from export: " + diff_bytes(b1, res["export2"]))
+        fail(f"size:{kind}:{layout_class(d, lay, 'size')}", f"exported {len(b1)} bytes, documented size {ds}")
+    # the area's own parser accepts the export and re-exports it identically
+    if kind != "fuses":
+        nchecks += 1
+        if "parse" in res and "err" in res["parse"]:
+            fail(f"parse:{kind}:rejects-own-export:{layout_class(d, lay, 'tag')}", f"the area's parser rejects the exported binary: {res['parse']}")
+        elif "export2" in res:
+            if res["export2"].get("ok") != e1["ok"]:
+                cls = snap_diff_classes(lay, kind, res["snap"]["ok"], res["snap2"]["ok"]) if "ok" in res.get("snap", {}) and "ok" in res.get("snap2", {}) else "?"
+                fail(f"roundtrip:{kind}:parse-export:{cls}", "parse(export).export() differs from export: " + diff_bytes(b1, res["export2"]))
     # computed fields in the exported bytes
     comp_ok = True
     for c in d.get("computed", []):
@@ -656,7 +859,7 @@ def apply_oracles(rep, case, res, R):
             if not holds:
                 fail(f"computed:{kind}:{c['method']}", f"computed field {c['field_name']} of {c['reg_name']} does not hold in the "
                      f"exported binary: register value {v:#010x}")
-    # O9 configured values are in the object and survive export -> parse
+    # configured values are in the object and survive export -> parse
     if scen == "values" and case.get("touched"):
         exp = expected_raw(lay, d, case["touched"], spec_computed)
         for snapkey, stage in (("snap", "after-load"), ("snap2", "after-export-parse")):
@@ -667,32 +870,38 @@ def apply_oracles(rep, case, res, R):
                 nchecks += 1
                 got = sn[path[0]][0] if len(path) == 1 else sn[path[0]][1 + path[1]]
                 if got != want:
-                    r = lay["regs"][path[0]] if len(path) == 1 else lay["regs"][path[0]]["subs"][path[1]]
+                    r = get_reg(lay, path)
                     fail(f"value-readback:{kind}:{stage}:{classify_reg(lay, path, kind)}",
                          f"register {r['name']} was configured to hold {want:#x} but holds {got:#x} {stage.replace('-', ' ')}",
                          {"register": r["name"]})
                     break
-    # O3 configuration round trip
+    # configuration round trip
     if "get_config" in res:
         nchecks += 1
         if "err" in res["get_config"]:
-            fail(f"config:{kind}:get_config-failed" + (f":rule-{d.get('rule')}" if kind == "memcfg" else ""),
-                 f"get_config failed: {res['get_config']}")
+            cls = layout_class(d, lay, "memcfg-count") if kind == "memcfg" else "plain"
+            fail(f"config:{kind}:get_config-failed:{cls}", f"get_config failed: {res['get_config']}")
         elif "load3" in res and "err" in res["load3"]:
-            fail(f"config:{kind}:own-config-rejected", f"the configuration produced by get_config does not load: {res['load3']}")
+            fail(f"config:{kind}:own-config-rejected:{layout_class(d, lay, 'own-config')}",
+                 f"the configuration produced by get_config does not load: {res['load3']}")
         elif kind == "memcfg":
             if res.get("option_words3") != res.get("option_words"):
                 fail(f"roundtrip:{kind}:config", f"option words {res.get('option_words')} -> {res.get('option_words3')}")
         elif comp_ok and "export3" in res and res["export3"].get("ok") != e1["ok"]:
-            cls = sorted({classify_reg(lay, (i,), kind) for i, (x, y) in enumerate(zip(res["snap"]["ok"], res["snap3"]["ok"])) if x != y}) \
-                if "ok" in res.get("snap", {}) and "ok" in res.get("snap3", {}) else ["?"]
-            fail(f"roundtrip:{kind}:config:{'+'.join(cls) or 'plain'}", "load(get_config()).export() differs from export: " + diff_bytes(b1, res["export3"]))
+            cls = snap_diff_classes(lay, kind, res["snap"]["ok"], res["snap3"]["ok"]) \
+                if "ok" in res.get("snap", {}) and "ok" in res.get("snap3", {}) else "?"
+            fail(f"roundtrip:{kind}:config:{cls}", "load(get_config()).export() differs from export: " + diff_bytes(b1, res["export3"]))
         if "export4" in res:
             nchecks += 1
             if "err" in res.get("schema4", {}):
-                fail(f"config-text:{kind}:schema", f"the YAML configuration written for the object fails the area's schema: {res['schema4']}")
+                fail(f"config-text:{kind}:schema:{layout_class(d, lay, 'schema')}",
+                     f"the YAML configuration written for the object fails the area's schema: {res['schema4']}")
             elif comp_ok and kind != "memcfg" and res["export4"].get("ok") != e1["ok"]:
-                fail(f"roundtrip:{kind}:config-text", "the YAML configuration written for the object loads to a different binary: " + diff_bytes(b1, res["export4"]))
+                cls = "?"
+                if "ok" in res.get("snap", {}) and "ok" in res.get("snap4", {}):
+                    cls = snap_diff_classes(lay, kind, res["snap"]["ok"], res["snap4"]["ok"], text=True)
+                fail(f"roundtrip:{kind}:config-text:{cls}", "the YAML configuration written for the object loads to a different binary: "
+                     + diff_bytes(b1, res["export4"]))
         if "config_text" in res and "err" in res["config_text"]:
             fail(f"config-text:{kind}:failed", f"writing the configuration failed: {res['config_text']}")
     # seal
@@ -763,55 +972,21 @@ def apply_oracles(rep, case, res, R):
                 comp5 = all(computed_holds(c["method"], int.from_bytes(b5[reg_range(lay["regs"][c["reg"][0]])[0]:reg_range(lay["regs"][c["reg"][0]])[1]], "little"))
                             for c in d.get("computed", []))
                 if "get_config5" in res and "err" in res["get_config5"]:
-                    fail(f"config:{kind}:get_config-failed" + (f":rule-{d.get('rule')}" if kind == "memcfg" else ""),
-                         f"get_config of a parsed binary failed: {res['get_config5']}")
+                    cls = layout_class(d, lay, "memcfg-count") if kind == "memcfg" else "plain"
+                    fail(f"config:{kind}:get_config-failed:{cls}", f"get_config of a parsed binary failed: {res['get_config5']}")
+                elif "export6" in res and "err" in res["export6"]:
+                    fail(f"config:{kind}:own-config-rejected:{layout_class(d, lay, 'own-config')}",
+                         f"the configuration of a parsed binary does not load: {res['export6']}")
                 elif comp5 and kind != "memcfg" and "export6" in res and res["export6"].get("ok") != res["export5"]["ok"]:
-                    cls = "?"
-                    fail(f"roundtrip:{kind}:config-of-parsed-binary", "load(get_config()) of a parsed binary exports differently: " + diff_bytes(b5, res["export6"]))
+                    cls = snap_diff_classes(lay, kind, res["snap5"]["ok"], res["snap6"]["ok"]) \
+                        if "ok" in res.get("snap5", {}) and "ok" in res.get("snap6", {}) else "?"
+                    fail(f"roundtrip:{kind}:config:{cls}", "load(get_config()) of a parsed binary exports differently: " + diff_bytes(b5, res["export6"]))
     return nchecks
-
-
-def diff_bytes(a, other):
-    if "err" in other:
-        return f"error {other}"
-    b = bytes.fromhex(other["ok"])
-    if len(a) != len(b):
-        return f"lengths {len(a)} / {len(b)}"
-    for i, (x, y) in enumerate(zip(a, b)):
-        if x != y:
-            return f"first difference at {i:#x}: {x:#04x} / {y:#04x}"
-    return "equal"
-
-
-def check_fuse_script(lay, case, res):
-    """every fuse named in the configuration is programmed with its raw value"""
-    text = res["script"]["ok"]
-    words = {}
-    for m in re.finditer(r"(?:efuse-program-once\s+(\d+)\s+0x([0-9A-Fa-f]+)|write-fuse --index (\d+) --data 0x([0-9A-Fa-f]+))", text):
-        idx = int(m.group(1) or m.group(3))
-        words[idx] = int(m.group(2) or m.group(4), 16)
-    sn = res["snap"]["ok"]
-    settings = case.get("settings") if case["scenario"] == "values" else None
-    if settings is None:
-        return None
-    for key in settings:
-        path, r = resolve_reg(lay, key)
-        if path is None:
-            continue
-        targets = [(path, r)] if not r.get("subs") else [((path[0], j), s) for j, s in enumerate(r["subs"])]
-        for p, t in targets:
-            if t.get("otp") is None:
-                continue
-            want = sn[p[0]][0] if len(p) == 1 else sn[p[0]][1 + p[1]]
-            if words.get(t["otp"]) != want:
-                return f"fuse {t['name']} (OTP index {t['otp']}) holds {want:#x} but the script programs {words.get(t['otp'])}"
-    return None
 
 
 def compare_model(case, res, mv, R):
     """exact comparison of the observables; returns a list of mismatch descriptions"""
     kind = case["kind"]
-    d = R["layouts"][case["layout"]]
     bad = []
     if "runner" in res:
         return ["implementation runner failed"]
@@ -825,6 +1000,8 @@ def compare_model(case, res, mv, R):
         elif i_slot[1] != m_slot[1]:
             bad.append(f"{name}: impl {str(i_slot[1])[:160]} model {str(m_slot[1])[:160]}")
 
+    if mv[0] == "e":
+        return [f"model could not decode the case: {mv}"]
     if kind == "tz":
         if "load" in res and "err" in res["load"]:
             return bad           # rejected names are outside the model's input space
@@ -865,7 +1042,7 @@ def compare_model(case, res, mv, R):
         return bad
     cmp("snap", impl_slot(res, "snap"), model_slot(m[1], msnap))
     cmp("export", impl_slot(res, "export"), model_slot(m[2], mbytes))
-    if "ok" in res.get("export", {}):
+    if "ok" in res.get("export", {}) and kind != "fuses":
         pm = m[3]
         if not (pm[0] == "e" and pm[1] == 98):
             if "err" in res.get("parse", {}):
@@ -906,6 +1083,14 @@ def run(tier):
         rep.obligation("translate:device database + spsdk/pfr/pfr.py -> Gen/GenAreas.v, Gen/GenAreaFns.v", True)
     except Exception as ex:  # noqa
         rep.obligation("translate:device database + spsdk/pfr/pfr.py -> Gen/GenAreas.v, Gen/GenAreaFns.v", False, repr(ex))
+    if R is None:
+        vlib.audit(rep)
+        return rep.finish(rule="generation failed", trusted_base=[], checker_cmd="")
+    # the implementation runs while Coq builds
+    cases = make_cases(tier, rng, R)
+    pool = concurrent.futures.ThreadPoolExecutor(max_workers=1)
+    t0 = time.time()
+    fut = pool.submit(run_impl_parallel, cases)
     # (P) proofs
     model_ok, mlog = vlib.coq_make(["Model/AreaModel.vo"])
     if THEOREMS:
@@ -913,13 +1098,10 @@ def run(tier):
         if tier == "thorough":
             vlib.coqchk(rep, PID, THEOREMS)
     vlib.audit(rep)
-    if R is None:
-        return rep.finish(rule="generation failed", trusted_base=[], checker_cmd="")
+    vlib.log(f"  coq: {time.time() - t0:.0f} s")
     # (T2) correspondence + oracles
-    cases = make_cases(tier, rng, R)
-    t0 = time.time()
-    results = run_impl_parallel(cases)
-    vlib.log(f"  implementation: {len(cases)} cases in {time.time() - t0:.0f} s")
+    results = fut.result()
+    vlib.log(f"  implementation: {len(cases)} cases, done after {time.time() - t0:.0f} s")
     nchecks = 0
     for c, r in zip(cases, results):
         nchecks += apply_oracles(rep, c, r, R)
@@ -947,7 +1129,16 @@ def run(tier):
     if model_ok:
         try:
             t0 = time.time()
-            mres = vlib.run_model_cases("c12", "Value Bytes RegsModel GenAreas AreaModel", exprs, shard=max(4, len(exprs) // 14 + 1), timeout=1500, jobs=WORKERS)
+            # heavy and light cases interleaved over the shards
+            order = sorted(range(len(exprs)), key=lambda i: -len(exprs[i]))
+            nsh = max(1, min(2 * WORKERS, len(exprs) // 6))
+            perm = [i for k in range(nsh) for i in order[k::nsh]]
+            shard = (len(perm) + nsh - 1) // nsh
+            mres_p = vlib.run_model_cases("c12", "Value Bytes RegsModel GenAreas AreaModel", [exprs[i] for i in perm], shard=shard,
+                                          timeout=1500, jobs=WORKERS)
+            mres = [None] * len(exprs)
+            for i, v in zip(perm, mres_p):
+                mres[i] = unpk(v)
             vlib.log(f"  model: {len(exprs)} cases in {time.time() - t0:.0f} s")
             for ci, mv in zip(owners, mres):
                 bad = compare_model(cases[ci], results[ci], mv, R)
@@ -970,16 +1161,18 @@ def run(tier):
                       else "seeded in-range values for registers and bit-fields"))
         s = streams.setdefault(name, {"n": 0, "distinct": set(), "samples": [], "err": 0})
         s["n"] += 1
-        ok = "export" in r and "ok" in r.get("export", {}) or "export5" in r
+        ok = ("export" in r and "ok" in r.get("export", {})) or "export5" in r
         if ok:
             s["distinct"].add((c["kind"], c["family"], c["rev"], c["sub"], json.dumps(c.get("settings", ""), sort_keys=True, default=str)[:4000],
                                c.get("parse_random", "")[:64]))
         else:
             s["err"] += 1
         if len(s["samples"]) < 3:
-            s["samples"].append({k: (v if k != "parse_random" else v[:64] + "...") for k, v in c.items()
-                                 if k in ("kind", "family", "rev", "sub", "scenario", "parse_random")}
-                                | ({"settings": dict(list(c["settings"].items())[:3])} if c.get("settings") else {}))
+            smp = {k: (v if k != "parse_random" else v[:64] + "...") for k, v in c.items()
+                   if k in ("kind", "family", "rev", "sub", "scenario", "parse_random")}
+            if c.get("settings"):
+                smp["settings"] = dict(list(c["settings"].items())[:3])
+            s["samples"].append(smp)
     for name, s in streams.items():
         rep.add_stream(name, s["n"], len(s["distinct"]), samples=s["samples"], exhaustive=(tier == "thorough" and name.startswith("template")),
                        extra={"rejected_or_error": s["err"]})
@@ -987,7 +1180,7 @@ def run(tier):
     for c in cases:
         kinds[c["kind"]] = kinds.get(c["kind"], 0) + 1
     return rep.finish(
-        rule="template stream: every (kind, family, revision, sub-feature) instance of the database in thorough, the first and last "
+        rule="template stream: every (kind, family, revision, sub-feature) instance of the database in thorough, the first "
              "instance of every distinct layout in quick; value stream: settings drawn from VERIF_SEED for the registers and bit-fields "
              "the template offers (boundary and random values, enum names, numbers and strings), a fixed number per distinct layout; "
              "binary stream: random binaries of the documented size with the tag / header / computed fields made well formed. "
